@@ -99,6 +99,17 @@ func Load(dirs []string) (*Loaded, error) {
 			l.overlayFiles[v] = f
 		}
 	}
+	// repo-module dependencies need bodies too (the root package z80 is what
+	// tinycpm and the commands execute)
+	hasRoot := false
+	for _, pt := range patterns {
+		if pt == "./." {
+			hasRoot = true
+		}
+	}
+	if !hasRoot {
+		patterns = append(patterns, "./.")
+	}
 	cfg := &packages.Config{
 		Mode:    packages.LoadSyntax | packages.NeedModule,
 		Dir:     repoDir,
